@@ -808,6 +808,7 @@ pub fn run_c20(ctx: &Ctx, rep: &mut Report) {
     }
     rep.tally_n("collections", n as u64);
     c20_builder_reuse(ctx, rep);
+    c20_packed_match_kind(rep);
     // One collection whose automata are big in *memory*: about 70 000 trie
     // states, all written densely with byte classes off (256 transitions each):
     // more than 2^24 table entries (64 MiB) for the contiguous NFA and the DFA.
@@ -1041,6 +1042,11 @@ fn c20_builder_reuse(ctx: &Ctx, rep: &mut Report) {
         match r {
             Err(p) => rep.violation("builder_reuse:packed_panic", format!("packed builder reuse panicked: {}", p), cj()),
             Ok((s1, s12, f1, f12)) => {
+                // the packed searcher reports the match kind it was configured with
+                if let Some(bad) = [&s1, &s12, &f1, &f12].iter().filter_map(|s| s.as_ref()).find(|s| format!("{:?}", s.match_kind()) != format!("{:?}", mk)) {
+                    rep.violation("builder_reuse:packed_match_kind", format!("packed searcher configured with {:?} reports match_kind() = {:?}", mk, bad.match_kind()), cj());
+                    continue;
+                }
                 if s1.is_some() != f1.is_some() || s12.is_some() != f12.is_some() {
                     rep.violation("builder_reuse:packed_buildability", "a packed builder extended after a build disagrees with a fresh one on whether a searcher can be built".to_string(), cj());
                     continue;
@@ -1059,6 +1065,29 @@ fn c20_builder_reuse(ctx: &Ctx, rep: &mut Report) {
                         rep.violation("builder_reuse:packed_extended", "the searcher built after extending a used builder differs from a fresh one given all patterns".to_string(), cj().with("haystack", J::Str(hex(&hay))));
                         break;
                     }
+                }
+            }
+        }
+    }
+}
+
+/// `packed::Searcher::match_kind()` for every kind and for collections in every
+/// length order (one pattern; longest first; shortest first; mixed).
+fn c20_packed_match_kind(rep: &mut Report) {
+    use aho_corasick::packed;
+    let lists: [&[&str]; 5] = [&["foo"], &["foobar", "foo"], &["foo", "foobar"], &["ab", "abcd", "abc"], &["zz", "aa", "bb"]];
+    for l in lists {
+        for mk in [packed::MatchKind::LeftmostFirst, packed::MatchKind::LeftmostLongest] {
+            let s = packed::Config::new().match_kind(mk).builder().extend(l.iter()).build();
+            rep.eval();
+            rep.tally("packed_match_kind_reads");
+            if let Some(s) = s {
+                if format!("{:?}", s.match_kind()) != format!("{:?}", mk) {
+                    rep.violation(
+                        "convenience:packed_match_kind",
+                        format!("packed searcher for {:?} configured with {:?} reports match_kind() = {:?}", l, mk, s.match_kind()),
+                        J::obj().with("what", J::s("convenience")).with("patterns", pats_json(&l.iter().map(|p| p.as_bytes().to_vec()).collect::<Vec<_>>())),
+                    );
                 }
             }
         }
